@@ -119,15 +119,31 @@ type svcRound struct {
 }
 
 type svcObs struct {
-	cls   int64
-	hops  []int64
-	maxRq int64
+	cls    int64
+	hops   []int64
+	maxRq  int64
+	first  []int64 // per next hop: form of the first request it received in this round (1 interleaved, 0 basic)
+	recent int64   // the clock's previous round ended less than 2 s ago
 }
 
 type svcChild struct {
 	cmd *exec.Cmd
 	in  io.WriteCloser
 	out *bufio.Scanner
+}
+
+// update asks the child to refresh its Pather at once (hook line "u"); false: the hook does not know the line
+func (c *svcChild) update() bool {
+	fmt.Fprintln(c.in, "u")
+	for c.out.Scan() {
+		if c.out.Text() == "verif-mp updated" {
+			return true
+		}
+		if strings.HasPrefix(c.out.Text(), "verif-mp bad") {
+			return false
+		}
+	}
+	return false
 }
 
 func (c *svcChild) round(clock int, ms int) (cls int64, ok bool) {
@@ -239,8 +255,10 @@ func runService(r *lib.Rng, wait bool) {
 	var rounds []svcRound
 	var obs []svcObs
 	tags := "nt"
+	lastEnd := map[int]time.Time{}
 	do := func(clock int) bool {
 		thePeer.newRound([][]int64{nil}, len(rounds) == 0)
+		begin := time.Now()
 		cls, ok := ch.round(clock, 3000)
 		if !ok {
 			return false
@@ -248,11 +266,19 @@ func runService(r *lib.Rng, wait bool) {
 		time.Sleep(5 * time.Millisecond)
 		thePeer.mu.Lock()
 		cnt := map[int]int64{}
-		for _, k := range thePeer.hops[0] {
+		firstForm := map[int]int64{}
+		for j, k := range thePeer.hops[0] {
+			if cnt[k] == 0 {
+				firstForm[k] = thePeer.forms[0][j]
+			}
 			cnt[k]++
 		}
 		thePeer.mu.Unlock()
 		o := svcObs{cls: cls}
+		if t, ok := lastEnd[clock]; ok && begin.Sub(t) < 2*time.Second && time.Since(begin) < time.Second {
+			o.recent = 1
+		}
+		lastEnd[clock] = time.Now()
 		for k, n := range cnt {
 			o.hops = append(o.hops, int64(k))
 			if n > o.maxRq {
@@ -260,6 +286,9 @@ func runService(r *lib.Rng, wait bool) {
 			}
 		}
 		sort.Slice(o.hops, func(a, b int) bool { return o.hops[a] < o.hops[b] })
+		for _, k := range o.hops {
+			o.first = append(o.first, firstForm[int(k)])
+		}
 		rounds = append(rounds, svcRound{clock: clock, truth: effective[iaOfClock[clock]]})
 		obs = append(obs, o)
 		return true
@@ -267,6 +296,74 @@ func runService(r *lib.Rng, wait bool) {
 	alive := true
 	for _, c := range []int{0, 0, 1, 0, 2, 1, 0, 2, 0} {
 		alive = alive && do(c)
+	}
+	// refreshes on demand (hook line "u"): the daemon's answer for IA 1 shrinks to some of the paths that were
+	// just probed - a single survivor, a prefix, a suffix, every other one -; the clients that hold the surviving
+	// paths must go on with them (interleaved requests), whatever their position in the clock's client list
+	probed := func(clock int) []svcPath {
+		for i := len(rounds) - 1; i >= 0; i-- {
+			if rounds[i].clock == clock {
+				var ps []svcPath
+				for _, h := range obs[i].hops {
+					for _, p := range rounds[i].truth {
+						if int64(p.sock) == h {
+							ps = append(ps, p)
+						}
+					}
+				}
+				return ps
+			}
+		}
+		return nil
+	}
+	shrink := func(ps []svcPath, how int) []svcPath {
+		if len(ps) == 0 {
+			return ps
+		}
+		switch how {
+		case 0:
+			return []svcPath{ps[r.Intn(len(ps))]}
+		case 1:
+			return ps[:1+r.Intn(len(ps))]
+		case 2:
+			return ps[r.Intn(len(ps)):]
+		}
+		var out []svcPath
+		for i := r.Intn(2); i < len(ps); i += 2 {
+			out = append(out, ps[i])
+		}
+		return out
+	}
+	for step := 0; alive && step < 6; step++ {
+		clock := []int{0, 2, 0, 2, 0, 2}[step]
+		var next []svcPath
+		if step%2 == 0 {
+			next = shrink(probed(clock), (step/2+r.Intn(4))%4) // shrink to survivors
+		} else {
+			next = append(shrink(probed(clock), 3), mk(100+step*3, 3)...) // some stay, fresh ones appear
+			for f := 20; len(next) < 9; f++ { // wide again, with sockets not yet in the answer
+				dup := false
+				for _, p := range next {
+					dup = dup || p.sock == f
+				}
+				if !dup {
+					next = append(next, mk(f, 1)...)
+				}
+			}
+		}
+		d.mu.Lock()
+		d.answers[iaOf(1)] = next
+		d.mu.Unlock()
+		if !ch.update() {
+			fmt.Println("NOTE the hook SCION_TIME_VERIF_MP has no refresh line \"u\": on-demand refreshes of mp.service skipped")
+			d.mu.Lock()
+			d.answers[iaOf(1)] = effective[1]
+			d.mu.Unlock()
+			break
+		}
+		effective[1] = next
+		tags += ",shrink"
+		alive = alive && do(0) && do(2) && do(clock)
 	}
 	if wait && alive {
 		// the daemon's answers change: paths in use are withdrawn, new ones appear; the first tick meets a
@@ -320,7 +417,7 @@ func runService(r *lib.Rng, wait bool) {
 			ps[j] = lib.L(lib.I(int64(p.sock)), lib.I(p.fp))
 		}
 		as[i] = lib.L(lib.I(int64(rd.clock)), lib.L(ps...))
-		os_[i] = lib.L(lib.I(obs[i].cls), lib.IL(obs[i].hops), lib.I(obs[i].maxRq))
+		os_[i] = lib.L(lib.I(obs[i].cls), lib.IL(obs[i].hops), lib.I(obs[i].maxRq), lib.IL(obs[i].first), lib.I(obs[i].recent))
 	}
 	if !alive {
 		os_ = append(os_, lib.L(lib.I(9), lib.L(), lib.I(0))) // the child died
